@@ -138,15 +138,24 @@ func fwdhandleControlMessageNP(process *Process, cm ControlMessage, re *RuntimeE
 		re.error(process, "expected FWD_ACTION")
 	}
 
-	// Notify that the process will change providers (i.e. the process.Providers will die and be replaced by cm.Providers)
-	process.terminateBeforeRename(process.Providers, cm.Providers, re)
+	// The request arrived on the control channel of the first provider: only that provider dies and is
+	// replaced by cm.Providers. A process which is still waiting to be duplicated (e.g. the forward
+	// created by a split, providing on both halves) keeps its other providers
+	replacedProviders := process.Providers[:1]
+	remainingProviders := process.Providers[1:]
 
-	// the process.Providers can no longer be used, so close them
+	// Notify that the process will change providers
+	process.terminateBeforeRename(replacedProviders, cm.Providers, re)
+
+	// the replaced provider can no longer be used, so close it
 	// todo check if they are being closed anywhere else
-	closeProvidersNP(process.Providers)
+	closeProvidersNP(replacedProviders)
 
 	// Change the providers to the one being forwarded to
-	process.Providers = cm.Providers
+	newProviders := make([]Name, 0, len(cm.Providers)+len(remainingProviders))
+	newProviders = append(newProviders, cm.Providers...)
+	newProviders = append(newProviders, remainingProviders...)
+	process.Providers = newProviders
 
 	process.transitionLoopNP(re)
 }
